@@ -167,7 +167,7 @@ macro_rules! rdata_enum {
                         RData::$i(_) => TYPE::$i,
                     )+
 
-                    RData::NULL(type_code, _) => TYPE::Unknown(*type_code),
+                    RData::NULL(type_code, _) => TYPE::from(*type_code),
                     RData::Empty(ty) => *ty
                 }
             }
